@@ -16,7 +16,11 @@ EXPLANATION = (
     "that is fresh on all paths (R2, freshness dataflow with arity facts); handlers of the "
     "environment singletons write no instance attribute (R4); the value-keyed constant caches of the real, interpreted "
     "manager give a value that merely compares equal to a cached key (True / 1, Fraction(1) / 1, 1+0j / 1) the outcome "
-    "it has on a fresh manager (R5).")
+    "it has on a fresh manager (R5); after the type checker's be_nice mode was used to probe an ill-typed application "
+    "and switched off again, the real manager rejects the application as a fresh one does (R8).  Environment "
+    "services interpreted after a history of other formulas built, queried, transformed and printed - two stores "
+    "over one array value included; functools.lru_cache / cache on a helper is modelled, so a cached mutable result "
+    "handed to several callers is seen - answer as in a fresh environment (R7).")
 NOT_DECIDED = ["ordering effects of set iteration (allowed by the property: 'up to the order of commutative arguments')"]
 
 
